@@ -369,7 +369,7 @@ def log_uniform(rng, lo, hi):
 def gen_samples(ctx):
     """yields thunks (fn-name, callable) so that an exception in the implementation is attributed"""
     rng = ctx.rng
-    k = ctx.n(1, 13)
+    k = ctx.n(1, 16)
     jobs = []
     # ---- to_3d
     for p in SPECIAL_POINTS:
